@@ -4,7 +4,7 @@ From VF Require Import Base.RingOps Base.Mat Base.Tensor Base.K8 Gates.GateSpecs
   Cliff.Tableau Cliff.TableauSem Cliff.TableauCircuit Generated.TableauRules
   Cliff.TableauProofs Cliff.TableauConjProofs Cliff.TableauTrackProofs Cliff.TableauCircuitProofs
   Cliff.TableauThen Cliff.TableauThenProofs Cliff.CliffGroup Cliff.CliffGroupProofs
-  Cliff.CHForm Cliff.CHFormHarness Cliff.CHFormProofs.
+  Cliff.CHForm Cliff.CHFormHarness Cliff.CHFormProofs Cliff.TableauRowsumProofs.
 Import ListNotations.
 
 (* every regenerated rule table of CliffordTableau (apply_x/y/z/h/cz/cx, _swap, g, _rowsum) is the model's rule *)
@@ -135,6 +135,13 @@ Theorem C13_chform_small_ok_partial :
   small_ok 1 gens1 4 = true /\ small_ok 2 gens2 3 = true /\ small_ok 3 gens3 2 = true /\ long_ok = true.
 Proof. exact chform_small_ok_partial. Qed.
 Print Assumptions C13_chform_small_ok_partial.
+
+
+(* D3 (support): _rowsum multiplies commuting rows (all pairs of one- and two-qubit rows, exact) *)
+Theorem C13_rowsum_is_product_small :
+  forallb rowsum_pair_ok (model_rowsum 1) = true /\ forallb rowsum_pair_ok (model_rowsum 2) = true.
+Proof. exact rowsum_is_product_small. Qed.
+Print Assumptions C13_rowsum_is_product_small.
 
 (* non-vacuity: the laws are inhabited (exact field Q(zeta_8)) and a Bell-pair circuit with an S gate meets every hypothesis *)
 Example C13_hypotheses_satisfiable :
